@@ -494,7 +494,7 @@ impl Database {
 
     pub(crate) fn parse_json_string(s: &str) -> Result<OwnedValue> {
         let value = Self::parse_json_to_value(s.trim())?;
-        let bytes = Self::jsonb_value_to_bytes(&value);
+        let bytes = Self::jsonb_value_to_bytes(&value)?;
         Ok(OwnedValue::Jsonb(bytes))
     }
 
@@ -525,7 +525,7 @@ impl Database {
 
     pub(crate) fn jsonb_value_to_bytes(
         value: &crate::records::jsonb::JsonbBuilderValue,
-    ) -> Vec<u8> {
+    ) -> Result<Vec<u8>> {
         use crate::records::jsonb::{JsonbBuilder, JsonbBuilderValue};
 
         fn build_from_value(value: &JsonbBuilderValue) -> JsonbBuilder {
@@ -551,7 +551,7 @@ impl Database {
             }
         }
 
-        build_from_value(value).build()
+        build_from_value(value).try_build()
     }
 
     pub(crate) fn unescape_json_string(s: &str) -> Result<String> {
